@@ -640,7 +640,10 @@ def run_check(run, tier, seed, shard):
     npl = nonint_plans()
     for k in shard_slice(range(len(npl)), shard):
         name, plan, drive = npl[k]
-        nonint_case(run, name, plan, drive, stats)
+        import warnings
+        with warnings.catch_warnings():
+            warnings.simplefilter('ignore')     # numpy scalars accepted as integers make numpy warn about wrap-around in the blocks
+            nonint_case(run, name, plan, drive, stats)
 
     # 2. catalogue sweep
     work = []
